@@ -1,14 +1,28 @@
 package main
 
 import (
+	"crypto/sha256"
 	"fmt"
+	"strings"
 
 	"verifharness/hlib"
 )
 
 const huge = "57896044618658097711785492504343953926634992332820282019728792003956564819967" // 2^255-1
 
-var coinDenoms = []string{"acoin", "bcoin", "ccoin", "ibc/27394FB092D2ECCD56123C74F36E4C1F926001CEADA9CA97EA622B25F41E5EB2", "dcoin-x"}
+// ibcVoucher: the denomination ibc-go's transfer application credits for base denomination `base` arriving on
+// transfer/<channel> (and the one the aggregate hook looks up: types.IBCDenom): "ibc/" + HEX(sha256(trace))
+func ibcVoucher(channel, base string) string {
+	h := sha256.Sum256([]byte("transfer/" + channel + "/" + base))
+	return "ibc/" + strings.ToUpper(fmt.Sprintf("%x", h[:]))
+}
+
+var (
+	ibc0 = ibcVoucher("channel-0", "uatom")
+	ibc1 = ibcVoucher("channel-1", "uatom")
+)
+
+var coinDenoms = []string{"acoin", "bcoin", "ccoin", ibc0, "dcoin-x", ibc1}
 
 // hex-looking denomination (40 hex digits starting with a letter): GetTokenPairID treats it as an address
 const hexDenom = "abcdefabcdefabcdefabcdefabcdefabcdefabcd"
@@ -23,7 +37,8 @@ type gen struct {
 	r     *hlib.Rand
 	steps []Step
 	toks  []*gtok
-	dens  []string // coin denominations in use
+	dens  []string    // coin denominations in use
+	appr  [][3]string // approvals made so far: token index, owner, spender
 }
 
 func (g *gen) add(s Step)      { g.steps = append(g.steps, s) }
@@ -199,6 +214,9 @@ func (g *gen) advCfg(ti int) {
 		g.add(Step{Op: "token_cfg", Tok: ti, Slot: 4, Amount: fmt.Sprint(1 + r.Intn(3))}) // log games
 	case 4:
 		g.add(Step{Op: "token_cfg", Tok: ti, Slot: 5, Amount: fmt.Sprint(1 + r.Intn(2))}) // balanceOf fails
+	case 5: // balanceOf fails for one holder only
+		g.add(Step{Op: "token_cfg", Tok: ti, Slot: 7, To: g.pick("@module", "@module", g.user())})
+		g.add(Step{Op: "token_cfg", Tok: ti, Slot: 5, Amount: "3"})
 	default: // back to honest
 		for sl := 1; sl <= 5; sl++ {
 			g.add(Step{Op: "token_cfg", Tok: ti, Slot: sl, Amount: "0"})
@@ -252,7 +270,9 @@ func (g *gen) convertCoin() {
 		s = g.user()
 	}
 	if r.Chance(1, 25) {
-		s = g.pick("@fresh", "@module", "bad-bech32")
+		// (never the module account: nobody can sign for it — hypothesis not_module_signed of the backing theorems;
+		// the unsigned "server" path would otherwise let it convert its own escrow)
+		s = g.pick("@fresh", "@thief", "bad-bech32")
 	}
 	via := "tx"
 	if r.Chance(3, 10) {
@@ -270,7 +290,7 @@ func (g *gen) convertERC20() {
 		s = g.user()
 	}
 	if r.Chance(1, 25) {
-		s = g.pick("@fresh", "@module", "0x12", "@zero")
+		s = g.pick("@fresh", "@thief", "0x12", "@zero")
 	}
 	c := fmt.Sprintf("@tok%d", ti) + g.pick("", "", "", "", ".lower", ".bare", ".upper")
 	if r.Chance(1, 25) {
@@ -282,6 +302,72 @@ func (g *gen) convertERC20() {
 	}
 	rc := g.receiver(s)
 	g.add(Step{Op: "convert_erc20", Sender: s + g.pick("", "", "", ".lower"), Receiver: rc, Contract: c, Denom: g.denomOf(ti), Amount: g.amount(), Via: via, Tok: ti})
+}
+
+// stdTok: index of a token with the full ERC-20 interface (module-deployed or user-deployed
+// ERC20MinterBurnerDecimals), or -1
+func (g *gen) stdTok() int {
+	var c []int
+	for i, t := range g.toks {
+		if t.kind == kindModule || t.kind == kindStd {
+			c = append(c, i)
+		}
+	}
+	if len(c) == 0 {
+		return -1
+	}
+	return c[g.r.Intn(len(c))]
+}
+
+// allowance: holders approve spenders; spenders move or burn the holder's tokens (the rest of the contract's public
+// interface, part of "what everybody else can do")
+func (g *gen) allowance() {
+	r := g.r
+	ti := g.stdTok()
+	if ti < 0 {
+		return
+	}
+	if len(g.appr) == 0 || r.Chance(2, 5) {
+		owner, sp := g.user(), g.pick(g.user(), g.user(), "@thief", "@module", "@zero")
+		op := g.pick("tok_approve", "tok_approve", "tok_approve", "tok_inc_allow", "tok_dec_allow")
+		g.add(Step{Op: op, Tok: ti, From: owner, To: sp, Amount: g.pick("1", "10", "50", "bal", "bal+1", "half", maxInt, "0")})
+		if sp != "@zero" {
+			g.appr = append(g.appr, [3]string{fmt.Sprint(ti), owner, sp})
+		}
+		return
+	}
+	a := g.appr[r.Intn(len(g.appr))]
+	var at int
+	fmt.Sscan(a[0], &at)
+	sp := a[2]
+	if r.Chance(1, 8) {
+		sp = g.user() // somebody without that allowance
+	}
+	if r.Chance(2, 3) {
+		g.add(Step{Op: "tok_transfer_from", Tok: at, From: sp, Sender: a[1], To: g.pick(g.user(), g.user(), "@module", "@thief", "@zero"), Amount: g.pick("1", "5", "allow", "allow+1", "bal", "half")})
+	} else {
+		g.add(Step{Op: "tok_burn_from", Tok: at, From: sp, Sender: a[1], Amount: g.pick("1", "3", "allow", "allow+1", "bal")})
+	}
+}
+
+// ibcRecv: an ICS-20 packet reaches the aggregate hook (usually right after the transfer application credited the
+// vouchers to the receiver: a "fund" step)
+func (g *gen) ibcRecv() {
+	r := g.r
+	channel, den := "channel-0", ibc0
+	if r.Chance(1, 3) {
+		channel, den = "channel-1", ibc1
+	}
+	base := "uatom"
+	if r.Chance(1, 10) {
+		base = g.pick("uosmo", "transfer/channel-9/uatom", "")
+	}
+	recv := g.pick(g.user(), g.user(), g.user(), g.user(), "@rich", "@rich", "@zero", "@zero", "@module", "@long", "@fresh", "@thief", "@feecol", "not-bech32")
+	amt := g.pick("1", "7", "bal", "bal", "half", "bal+1", "0", "-3", "abc", "0x10", "12", huge)
+	if r.Chance(3, 4) && strings.HasPrefix(recv, "@") && recv != "@long" && recv != "@rich" && recv != "@module" && recv != "@feecol" {
+		g.add(Step{Op: "fund", To: recv, Denom: den, Amount: fmt.Sprint(1 + r.Intn(30))})
+	}
+	g.add(Step{Op: "ibc_recv", Receiver: recv, Denom: base, Amount: amt, Channel: channel})
 }
 
 type pending struct {
@@ -305,10 +391,14 @@ func (g *gen) main(n int) {
 		}
 		restore = keep
 		switch x := r.Intn(100); {
-		case x < 38:
+		case x < 34:
 			g.convertCoin()
-		case x < 76:
+		case x < 70:
 			g.convertERC20()
+		case x < 75:
+			g.ibcRecv()
+		case x < 79:
+			g.allowance()
 		case x < 81:
 			g.add(Step{Op: "tok_transfer", Tok: g.tokIndex(), From: "@rich", To: g.pick(g.user(), g.user(), "@module", "@thief", "@zero"), Amount: g.pick("1", "5", "bal", "bal+1", "half")})
 		case x < 84:
@@ -447,6 +537,23 @@ func targeted() []Spec {
 		}
 		out = append(out, Spec{Tag: "adv-modes", Steps: st})
 	}
+	// balanceOf that fails for ONE holder only: the module (flow 2.2: "cannot read the escrowed token balance", flow
+	// 2.1: nil escrow balance -> panic), then the receiver (flow 2.2: nil receiver balance -> panic)
+	out = append(out, Spec{Tag: "selective-balanceof", Steps: []Step{
+		{Op: "deploy", Kind: kindAdv, From: "@u0"},
+		{Op: "token_mint", Tok: 0, To: "@u1", Amount: "1000"},
+		{Op: "register_erc20", Tok: 0},
+		{Op: "convert_erc20", Sender: "@u1", Receiver: "@u1", Contract: "@tok0", Denom: "@tok0.voucher", Amount: "200", Via: "tx"},
+		{Op: "token_cfg", Tok: 0, Slot: 7, To: "@module"},
+		{Op: "token_cfg", Tok: 0, Slot: 5, Amount: "3"},
+		{Op: "convert_coin", Sender: "@u1", Receiver: "@u2", Denom: "@tok0.voucher", Amount: "5", Via: "tx"},
+		{Op: "convert_erc20", Sender: "@u1", Receiver: "@u1", Contract: "@tok0", Denom: "@tok0.voucher", Amount: "5", Via: "tx"},
+		{Op: "token_cfg", Tok: 0, Slot: 7, To: "@u2"},
+		{Op: "convert_coin", Sender: "@u1", Receiver: "@u2", Denom: "@tok0.voucher", Amount: "5", Via: "server"},
+		{Op: "convert_coin", Sender: "@u1", Receiver: "@u3", Denom: "@tok0.voucher", Amount: "5", Via: "tx"},
+		{Op: "token_cfg", Tok: 0, Slot: 5, Amount: "0"},
+		{Op: "convert_coin", Sender: "@u1", Receiver: "@u2", Denom: "@tok0.voucher", Amount: "5", Via: "tx"},
+	}})
 	// a token whose balanceOf is not a view of its ledger (Refuted: C11_voucher_backing_misreport_refuted): the
 	// escrow check of convertERC20NativeToken passes although nothing was transferred
 	out = append(out, Spec{Tag: "misreport", Steps: []Step{
@@ -490,6 +597,105 @@ func targeted() []Spec {
 		{Op: "params", Flag: false},
 		{Op: "convert_coin", Sender: "@u0", Receiver: "@u0", Denom: "acoin", Amount: "5", Via: "tx"},
 		{Op: "convert_erc20", Sender: "@u1", Receiver: "@u1", Contract: "@tok1", Denom: "@tok1.voucher", Amount: "5", Via: "tx"},
+	}})
+	// the ICS-20 hook: all or nothing on every exit, in particular on failures AFTER the escrow step (mint to the
+	// zero address reverts; an external pair with an added coin whose token escrow is insufficient)
+	out = append(out, Spec{Tag: "hook", Steps: []Step{
+		{Op: "fund", To: "@u1", Denom: ibc0, Amount: "100"},
+		{Op: "fund", To: "@zero", Denom: ibc0, Amount: "100"},
+		{Op: "fund", To: "@u2", Denom: ibc1, Amount: "50"},
+		{Op: "register_coin", Denom: ibc0},
+		{Op: "deploy", Kind: kindStd, From: "@u0"},
+		{Op: "token_mint", Tok: 1, To: "@u3", Amount: "500"},
+		{Op: "register_erc20", Tok: 1},
+		{Op: "add_coin", Tok: 1, Denom: ibc1},
+		{Op: "ibc_recv", Receiver: "@u1", Denom: "uatom", Amount: "40"},
+		{Op: "ibc_recv", Receiver: "@zero", Denom: "uatom", Amount: "100"},
+		{Op: "ibc_recv", Receiver: "@u1", Denom: "uatom", Amount: "100"},
+		{Op: "ibc_recv", Receiver: "@u2", Denom: "uatom", Amount: "20", Channel: "channel-1"},
+		{Op: "convert_erc20", Sender: "@u3", Receiver: "@u3", Contract: "@tok1", Denom: "@tok1.voucher", Amount: "30", Via: "tx"},
+		{Op: "ibc_recv", Receiver: "@u2", Denom: "uatom", Amount: "20", Channel: "channel-1"},
+		{Op: "ibc_recv", Receiver: "@u2", Denom: "uatom", Amount: "20", Channel: "channel-1"},
+		{Op: "ibc_recv", Receiver: "@u1", Denom: "uatom", Amount: "0"},
+		{Op: "ibc_recv", Receiver: "@u1", Denom: "uatom", Amount: "-5"},
+		{Op: "ibc_recv", Receiver: "@long", Denom: "uatom", Amount: "5"},
+		{Op: "ibc_recv", Receiver: "@u1", Denom: "uatom", Amount: "abc"},
+		{Op: "ibc_recv", Receiver: "@u1", Denom: "uosmo", Amount: "5"},
+		{Op: "ibc_recv", Receiver: "@module", Denom: "uatom", Amount: "5"},
+		{Op: "toggle", Tok: 0},
+		{Op: "ibc_recv", Receiver: "@u1", Denom: "uatom", Amount: "5"},
+		{Op: "toggle", Tok: 0},
+		{Op: "params", Flag: false},
+		{Op: "ibc_recv", Receiver: "@u1", Denom: "uatom", Amount: "5"},
+		{Op: "params", Flag: true},
+		{Op: "send_enabled", Denom: ibc0, Flag: false},
+		{Op: "ibc_recv", Receiver: "@u1", Denom: "uatom", Amount: "5"},
+		{Op: "evm_call_enabled", Flag: false},
+		{Op: "ibc_recv", Receiver: "@u1", Denom: "uatom", Amount: "5"},
+		{Op: "evm_call_enabled", Flag: true},
+		{Op: "ibc_recv", Receiver: "@u1", Denom: "uatom", Amount: "bal"},
+	}})
+	// the allowance interface of the module's contract and of a user-deployed one: approve / increase / decrease,
+	// transferFrom (also into the escrow), burnFrom (supply drops below the escrow), over-spending
+	out = append(out, Spec{Tag: "allowance", Steps: []Step{
+		{Op: "fund", To: "@u0", Denom: "acoin", Amount: "100"},
+		{Op: "register_coin", Denom: "acoin"},
+		{Op: "deploy", Kind: kindStd, From: "@u3"},
+		{Op: "token_mint", Tok: 1, To: "@u0", Amount: "200"},
+		{Op: "register_erc20", Tok: 1},
+		{Op: "convert_coin", Sender: "@u0", Receiver: "@u0", Denom: "acoin", Amount: "100", Via: "tx"},
+		{Op: "tok_approve", Tok: 0, From: "@u0", To: "@u1", Amount: "50"},
+		{Op: "tok_transfer_from", Tok: 0, From: "@u1", Sender: "@u0", To: "@u2", Amount: "20"},
+		{Op: "tok_burn_from", Tok: 0, From: "@u1", Sender: "@u0", Amount: "10"},
+		{Op: "tok_transfer_from", Tok: 0, From: "@u1", Sender: "@u0", To: "@u2", Amount: "allow+1"},
+		{Op: "tok_transfer_from", Tok: 0, From: "@u1", Sender: "@u0", To: "@zero", Amount: "1"},
+		{Op: "tok_transfer_from", Tok: 0, From: "@u2", Sender: "@u0", To: "@u2", Amount: "1"},
+		{Op: "tok_inc_allow", Tok: 0, From: "@u0", To: "@u1", Amount: "5"},
+		{Op: "tok_inc_allow", Tok: 0, From: "@u0", To: "@u1", Amount: maxInt},
+		{Op: "tok_dec_allow", Tok: 0, From: "@u0", To: "@u1", Amount: "26"},
+		{Op: "tok_dec_allow", Tok: 0, From: "@u0", To: "@u1", Amount: "5"},
+		{Op: "tok_transfer_from", Tok: 0, From: "@u1", Sender: "@u0", To: "@module", Amount: "allow"},
+		{Op: "tok_approve", Tok: 0, From: "@u2", To: "@zero", Amount: "5"},
+		{Op: "tok_approve", Tok: 0, From: "@u2", To: "@module", Amount: maxInt},
+		{Op: "convert_erc20", Sender: "@u2", Receiver: "@u2", Contract: "@tok0", Denom: "acoin", Amount: "20", Via: "tx"},
+		{Op: "convert_erc20", Sender: "@u0", Receiver: "@u0", Contract: "@tok1", Denom: "@tok1.voucher", Amount: "100", Via: "tx"},
+		{Op: "tok_approve", Tok: 1, From: "@u0", To: "@u1", Amount: "60"},
+		{Op: "tok_transfer_from", Tok: 1, From: "@u1", Sender: "@u0", To: "@module", Amount: "30"},
+		{Op: "tok_burn_from", Tok: 1, From: "@u1", Sender: "@u0", Amount: "30"},
+		{Op: "tok_burn_from", Tok: 1, From: "@u1", Sender: "@u0", Amount: "1"},
+		// an allowance of 2^256-1 is "infinite" in the deployed byte code: spending does not decrease it
+		{Op: "tok_approve", Tok: 1, From: "@u0", To: "@u1", Amount: maxInt},
+		{Op: "tok_transfer_from", Tok: 1, From: "@u1", Sender: "@u0", To: "@u2", Amount: "5"},
+		{Op: "tok_burn_from", Tok: 1, From: "@u1", Sender: "@u0", Amount: "1"},
+		{Op: "tok_approve", Tok: 0, From: "@u2", To: "@u1", Amount: maxInt},
+		{Op: "tok_burn_from", Tok: 0, From: "@u1", Sender: "@u2", Amount: "1"},
+		{Op: "tok_transfer_from", Tok: 0, From: "@u1", Sender: "@u2", To: "@u3", Amount: "bal"},
+		{Op: "convert_coin", Sender: "@u0", Receiver: "@u1", Denom: "@tok1.voucher", Amount: "100", Via: "tx"},
+	}})
+	// two module-owned pairs and an external pair, all with escrow: a conversion through contract A naming a
+	// denomination of pair B (either direction of ownership) must be refused
+	out = append(out, Spec{Tag: "cross-pair", Steps: []Step{
+		{Op: "fund", To: "@u0", Denom: "acoin", Amount: "100"},
+		{Op: "fund", To: "@u1", Denom: "bcoin", Amount: "100"},
+		{Op: "fund", To: "@u1", Denom: "ccoin", Amount: "100"},
+		{Op: "register_coin", Denom: "acoin"},
+		{Op: "register_coin", Denom: "bcoin"},
+		{Op: "add_coin", Tok: 1, Denom: "ccoin"},
+		{Op: "deploy", Kind: kindStd, From: "@u2"},
+		{Op: "token_mint", Tok: 2, To: "@u0", Amount: "300"},
+		{Op: "register_erc20", Tok: 2},
+		{Op: "convert_coin", Sender: "@u0", Receiver: "@u0", Denom: "acoin", Amount: "60", Via: "tx"},
+		{Op: "convert_coin", Sender: "@u1", Receiver: "@u1", Denom: "bcoin", Amount: "40", Via: "tx"},
+		{Op: "convert_coin", Sender: "@u1", Receiver: "@u1", Denom: "ccoin", Amount: "30", Via: "tx"},
+		{Op: "convert_erc20", Sender: "@u0", Receiver: "@u0", Contract: "@tok2", Denom: "@tok2.voucher", Amount: "50", Via: "tx"},
+		{Op: "convert_erc20", Sender: "@u0", Receiver: "@u0", Contract: "@tok0", Denom: "bcoin", Amount: "10", Via: "tx"},
+		{Op: "convert_erc20", Sender: "@u0", Receiver: "@u0", Contract: "@tok0", Denom: "ccoin", Amount: "10", Via: "server"},
+		{Op: "convert_erc20", Sender: "@u1", Receiver: "@u1", Contract: "@tok1", Denom: "acoin", Amount: "10", Via: "tx"},
+		{Op: "convert_erc20", Sender: "@u0", Receiver: "@u0", Contract: "@tok0", Denom: "@tok2.voucher", Amount: "10", Via: "tx"},
+		{Op: "convert_erc20", Sender: "@u0", Receiver: "@u0", Contract: "@tok2", Denom: "acoin", Amount: "10", Via: "tx"},
+		{Op: "convert_erc20", Sender: "@u0", Receiver: "@u0", Contract: "@tok2", Denom: "bcoin", Amount: "10", Via: "server"},
+		{Op: "convert_erc20", Sender: "@u1", Receiver: "@u1", Contract: "@tok1", Denom: "ccoin", Amount: "10", Via: "tx"},
+		{Op: "convert_erc20", Sender: "@u0", Receiver: "@u0", Contract: "@tok0", Denom: "acoin", Amount: "10", Via: "tx"},
 	}})
 	for i := range out {
 		out[i].ID = i
